@@ -101,7 +101,7 @@ def check(run, driver):
     rng = run.rng
     tabs, notes = gen_tables.generate()
     u = tabs.get("utils") or {}
-    if not u or "param_cols" not in u:
+    if not u or any(k not in u for k in ("param_cols", "metadata_order", "base_cols", "base_columns", "optional_columns")) or not u["param_cols"]:
         run.extra["translator"] = "UNTRANSLATABLE (" + "; ".join(notes) + ") -- the source no longer has a shape the AST translator recognises; the table obligation is not established on this run and the property is decided by the correspondence alone (DESIGN.md §2.4)"
         param_cols, order = [(p, DOC_COLS[p]) for p in PARAMS], [DOC_COLS[p] for p in PARAMS]
     else:
